@@ -69,7 +69,8 @@ class CondensedReactionGraph(MolGraph):
             self.atoms, self.atom_types, s_color_array)}
 
         return any(
-                vf2pp_all_isomorphisms(
+                self._same_bond_changes(other, mapping)
+                for mapping in vf2pp_all_isomorphisms(
                     self,
                     other,
                     atom_labels=(s_colors, o_colors),
@@ -78,6 +79,19 @@ class CondensedReactionGraph(MolGraph):
                     subgraph=False,
                 )
             )
+
+    def _same_bond_changes(
+        self, other: CondensedReactionGraph, mapping: dict[AtomId, AtomId]
+    ) -> bool:
+        """True if the mapping carries every bond onto a bond with the same
+        reaction attribute (unchanged, formed, broken or fleeting)."""
+        for bond, attrs in self._bond_attrs.items():
+            o_attrs = other._bond_attrs.get(Bond(mapping[a] for a in bond))
+            if o_attrs is None or (
+                attrs.get("reaction") != o_attrs.get("reaction")
+            ):
+                return False
+        return True
 
     def add_bond(self, atom1: int, atom2: int, **attr: Any):
         """
